@@ -349,11 +349,11 @@ def _some(x):
 
 
 # ---------------------------------------------------------------------------------------- the real per-call function
-def real_inst_recs(ins, wd, intern):
+def real_inst_recs(ins, wd, intern, suffix=""):
     """Entries that the real write_recombination_list writes for this single (chromosome, family) result."""
     from whatshap.cli.phase import write_recombination_list
     from whatshap.pedigree import Trio
-    p = os.path.join(wd, "one_call.txt")
+    p = os.path.join(wd, f"one_call.{suffix}.txt")
     trios = [Trio(child=c, father=f, mother=m) for c, f, m in ins["trios"]]
     import logging
     logging.getLogger("whatshap.pedigree").setLevel(logging.WARNING)
